@@ -903,14 +903,22 @@ func (g *gen) method(s *Service, name string, cell int) {
 					}
 				case "jwt":
 					add("token", "jwt")
-					if r.Intn(3) == 0 {
+					switch r.Intn(3) {
+					case 0:
 						h.Headers = append(h.Headers, Mapped{Attr: g.lastCred, Wire: lp.Pick(r, []string{"Authorization", "X-Token"})})
+					case 1:
+						if g.o.Index%2 == 0 {
+							// a bearer token carried in the query string: no scheme prefix is removed there
+							h.Params = append(h.Params, Mapped{Attr: g.lastCred, Wire: "jwt"})
+						}
 					}
 				case "oauth2":
 					add("access", "oauth2")
 					if g.o.Index%2 == 1 {
 						// an explicit header of its own (otherwise goa's implicit Authorization header, possibly shared with JWT)
 						h.Headers = append(h.Headers, Mapped{Attr: g.lastCred, Wire: "X-Access-Token"})
+					} else if g.o.Index%4 == 2 {
+						h.Params = append(h.Params, Mapped{Attr: g.lastCred, Wire: "access_token"})
 					}
 				}
 			}
